@@ -41,7 +41,10 @@ ReachDef(V, E, u) ==
 
 (*********************** components (SCC, CC) *******************************)
 \* classes of mutual reachability
-SCCs(V, E) == LET R == [u \in V |-> Reach(E, u)] IN {{v \in R[u] : u \in R[v]} : u \in V}
+\* (the reachability relation is built once as a set of pairs: TLC re-evaluates a function
+\* constructor's body at every application, a set is evaluated once)
+ReachRel(V, E) == UNION {{<<u, v>> : v \in Reach(E, u)} : u \in V}
+SCCs(V, E) == LET TC == ReachRel(V, E) IN {{v \in V : <<u, v>> \in TC /\ <<v, u>> \in TC} : u \in V}
 CCs(V, E)  == LET S == Sym(E) IN {Reach(S, u) : u \in V}
 SccOf(P, v) == CHOOSE C \in P : v \in C
 IsPartition(P, V) == /\ UNION P = V /\ {} \notin P
@@ -165,7 +168,13 @@ ReachAvoid(E, r, d) == IF d = r THEN {} ELSE Grow({e \in E : e[1] # d /\ e[2] # 
 \* strict dominators of v: d # v such that every path r -> v contains d
 SDom(E, r, v) == {d \in Reach(E, r) \ {v} : v \notin ReachAvoid(E, r, d)}
 IDom(E, r, v) == CHOOSE d \in SDom(E, r, v) : SDom(E, r, v) = SDom(E, r, d) \cup {d}
-IDomTree(E, r) == [v \in Reach(E, r) \ {r} |-> IDom(E, r, v)]
+\* the same tree with the avoid-sets computed once (what the generator and the trace acceptor evaluate)
+IDomTree(E, r) ==
+    LET R == Reach(E, r)
+        Dom == UNION {{<<d, v>> : v \in R \ ReachAvoid(E, r, d)} : d \in R}       \* d dominates v
+        SDP == {<<v, {d \in R \ {v} : <<d, v>> \in Dom}>> : v \in R}            \* (v, strict dominators of v)
+        SD(v) == (CHOOSE p \in SDP : p[1] = v)[2]
+    IN [v \in R \ {r} |-> CHOOSE d \in SD(v) : SD(v) = SD(d) \cup {d}]
 \* definition by paths (small graphs): all simple paths r -> v
 SimplePaths(V, E, r, v) ==
     UNION {{p \in [1 .. k -> V] : (p[1] = r /\ p[k] = v)
@@ -178,7 +187,8 @@ RECURSIVE LayersFrom(_, _, _)
 LayersFrom(E, frontier, seen) ==
     IF frontier = {} THEN <<>> ELSE <<frontier>> \o LayersFrom(E, SuccS(E, frontier) \ seen, seen \cup SuccS(E, frontier))
 BFSLayers(E, r) == LayersFrom(E, {r}, {r})       \* BFSLayers[d+1] = nodes at hop distance d
-BFSDepth(E, r) == LET L == BFSLayers(E, r) IN [v \in Reach(E, r) |-> (CHOOSE i \in DOMAIN L : v \in L[i]) - 1]
+BFSDepthPairs(E, r) == LET L == BFSLayers(E, r) IN UNION {{<<v, i - 1>> : v \in L[i]} : i \in DOMAIN L}   \* (node, hop distance)
+BFSDepth(E, r) == LET DP == BFSDepthPairs(E, r) IN [v \in {p[1] : p \in DP} |-> (CHOOSE p \in DP : p[1] = v)[2]]
 \* definition: hop distance = least number of edges of a walk
 RECURSIVE StepSet(_, _, _)
 StepSet(E, S, k) == IF k = 0 THEN S ELSE StepSet(E, SuccS(E, S), k - 1)
@@ -190,14 +200,19 @@ IsSpanningForest(V, E, T) == /\ T \subseteq UEdges(E)
                              /\ CCs(V, T) = CCs(V, E)
                              /\ Cardinality(T) = Cardinality(V) - Cardinality(CCs(V, E))   \* acyclic
 MSFWeightDef(V, E, W) == Min({SumF(W, T) : T \in {S \in SUBSET UEdges(E) : IsSpanningForest(V, E, S)}})
-\* sorted greedy (Kruskal by definition): comp maps nodes to component representatives
-RECURSIVE Greedy(_, _, _, _)
-Greedy(W, rest, comp, acc) ==
+\* sorted greedy (Kruskal by definition): P is the current partition of the nodes into trees
+\* (a set of sets: TLC evaluates sets eagerly, a chain of function overrides would be re-evaluated)
+\* WT: the weighted edges as a set of triples <<u, v, w>>
+RECURSIVE Greedy(_, _, _)
+Greedy(rest, P, acc) ==
     IF rest = {} THEN acc
-    ELSE LET e == CHOOSE x \in rest : \A y \in rest : W[x] <= W[y]
-         IN IF comp[e[1]] = comp[e[2]] THEN Greedy(W, rest \ {e}, comp, acc)
-            ELSE Greedy(W, rest \ {e}, [v \in DOMAIN comp |-> IF comp[v] = comp[e[2]] THEN comp[e[1]] ELSE comp[v]], acc + W[e])
-MSFWeight(V, E, W) == Greedy(W, UEdges(E), [v \in V |-> v], 0)
+    ELSE LET mw == Min({t[3] : t \in rest})
+             e == CHOOSE t \in rest : t[3] = mw            \* a lightest remaining edge
+             A == CHOOSE c \in P : e[1] \in c
+             B == CHOOSE c \in P : e[2] \in c
+         IN IF A = B THEN Greedy(rest \ {e}, P, acc)
+            ELSE Greedy(rest \ {e}, (P \ {A, B}) \cup {A \cup B}, acc + mw)
+MSFWeight(V, E, W) == Greedy({<<e[1], e[2], W[e]>> : e \in UEdges(E)}, {{v} : v \in V}, 0)
 
 (******************************* colouring **********************************)
 \* col: function from V to colours
@@ -225,7 +240,7 @@ KColourableFrom(E, todo, col, used, k) ==
          IN \E c \in (1 .. top) \ forb :
                KColourableFrom(E, todo \ {v}, [u \in DOMAIN col \cup {v} |-> IF u = v THEN c ELSE col[u]],
                                IF c > used THEN c ELSE used, k)
-KColourable(V, E, k) == KColourableFrom(E, V, <<>>, 0, k)
+KColourable(V, E, k) == k >= 0 /\ KColourableFrom(E, V, <<>>, 0, k)
 \* a partial colouring is admissible iff its nodes exist and it is proper on its domain
 PartialOK(V, E, part) == DOMAIN part \subseteq V /\ \A e \in E : (e[1] \in DOMAIN part /\ e[2] \in DOMAIN part) => part[e[1]] # part[e[2]]
 Extends(col, part) == \A v \in DOMAIN part : col[v] = part[v]
